@@ -3,3 +3,4 @@ arbitrary client (Props/C10Engine.lean) + the instance for the BuildSystem's rul
 import LLBuild.Props.C10
 import LLBuild.Props.C10Engine
 import LLBuild.Props.C10Client
+import LLBuild.Props.C08X
